@@ -39,12 +39,10 @@ pub type Fallible<T> = Result<T, NoSolution>;
 #[verifier::external_body] pub struct InferenceVar { _p: () }
 impl Copy for InferenceVar {}
 impl Clone for InferenceVar { #[verifier::external_body] fn clone(&self) -> (r: Self) ensures r == *self { unimplemented!() } }
-#[verifier::external_body] pub struct TyVariableKind { _p: () }
-impl Copy for TyVariableKind {}
-impl Clone for TyVariableKind { #[verifier::external_body] fn clone(&self) -> (r: Self) ensures r == *self { unimplemented!() } }
 
 // real definitions (extracted)
 //@TYPE file=chalk-ir/src/lib.rs kind=enum name=Variance attrs="#[derive(Clone, Copy)]"
+//@TYPE file=chalk-ir/src/lib.rs kind=enum name=TyVariableKind attrs="#[derive(Clone, Copy)]"
 //@TYPE file=chalk-ir/src/lib.rs kind=struct name=UniverseIndex attrs="#[derive(Clone, Copy)]"
 //@TYPE file=chalk-ir/src/lib.rs kind=struct name=PlaceholderIndex attrs="#[derive(Clone, Copy)]"
 //@TYPE file=chalk-ir/src/lib.rs kind=struct name=InEnvironment attrs="#[verifier::reject_recursive_types(G)]"
@@ -172,8 +170,25 @@ impl<I: Interner> Ty<I> {
         ensures
             final(folder).v_var() == old(folder).v_var(), final(folder).v_universe() == old(folder).v_universe(),
             r matches Ok(t) ==> !spec_needs_shift(t),
+            // (as for constants: the outcome is an uninterpreted function of the check's parameters and the state it ran on)
+            (r, final(folder).tview(), final(folder).goal_seq())
+                == spec_check_ty(self, old(folder).v_var(), old(folder).v_universe(), old(folder).tview(), old(folder).goal_seq(), old(folder).env()),
+            final(folder).env() == old(folder).env(),
+            *final(final(folder).unifier_ref()) == *final(old(folder).unifier_ref()),
     { unimplemented!() }
+    pub uninterp spec fn spec_is_integer(self) -> bool;
+    pub uninterp spec fn spec_is_float(self) -> bool;
+    #[verifier::external_body]
+    pub fn is_integer(&self, interner: I) -> (r: bool) ensures r == self.spec_is_integer() { unimplemented!() }
+    #[verifier::external_body]
+    pub fn is_float(&self, interner: I) -> (r: bool) ensures r == self.spec_is_float() { unimplemented!() }
 }
+pub uninterp spec fn spec_check_ty<I: Interner>(t: Ty<I>, var: EnaVariable<I>, universe: UniverseIndex, table: TableView<I>, goals: Seq<InEnvironment<Goal<I>>>, env: Environment<I>)
+    -> (Fallible<Ty<I>>, TableView<I>, Seq<InEnvironment<Goal<I>>>);
+/// `generalize_ty` (fresh unknowns for everything inside the type) and `relate_ty_ty`: havoc, outcome uninterpreted
+pub uninterp spec fn spec_generalize_ty<I: Interner>(t: Ty<I>, universe: UniverseIndex, variance: Variance, table: TableView<I>) -> (Ty<I>, TableView<I>);
+pub uninterp spec fn spec_relate_ty_ty<I: Interner>(goals: Seq<InEnvironment<Goal<I>>>, table: TableView<I>, env: Environment<I>, variance: Variance, a: Ty<I>, b: Ty<I>)
+    -> (bool, Seq<InEnvironment<Goal<I>>>, TableView<I>);
 
 /// stands for ena's `K1: Into<EnaVariable<I>>` bounds
 pub trait IntoEna<I: Interner>: Sized { spec fn spec_ena(self) -> EnaVariable<I>; }
@@ -276,10 +291,50 @@ impl<I: Interner> InferenceTable<I> {
 //@END
 
 impl<'t, I: Interner> Unifier<'t, I> {
+    #[verifier::external_body]
+    fn generalize_ty(&mut self, ty: &Ty<I>, universe_index: UniverseIndex, variance: Variance) -> (r: Ty<I>)
+        ensures
+            (r, final(self).tview()) == spec_generalize_ty(*ty, universe_index, variance, old(self).tview()),
+            final(self).goal_seq() == old(self).goal_seq(), final(self).env() == old(self).env(),
+    { unimplemented!() }
+    #[verifier::external_body]
+    fn relate_ty_ty(&mut self, variance: Variance, a: &Ty<I>, b: &Ty<I>) -> (r: Fallible<()>)
+        ensures
+            final(self).env() == old(self).env(),
+            (r is Ok, final(self).goal_seq(), final(self).tview())
+                == spec_relate_ty_ty(old(self).goal_seq(), old(self).tview(), old(self).env(), variance, *a, *b),
+    { unimplemented!() }
+//@FN file=chalk-solve/src/infer/unify.rs within="^impl<'t, I: Interner> Unifier<'t, I>$" fn=relate_var_ty contract=relate_var_ty path=Unifier::relate_var_ty
 //@FN file=chalk-solve/src/infer/unify.rs within="^impl<'t, I: Interner> Unifier<'t, I>$" fn=unify_var_var contract=unify_var_var path=Unifier::unify_var_var
 //@FN file=chalk-solve/src/infer/unify.rs within="^impl<'t, I: Interner> Unifier<'t, I>$" fn=unify_general_var_specific_ty contract=unify_general path=Unifier::unify_general_var_specific_ty
 //@FN file=chalk-solve/src/infer/unify.rs within="^impl<'t, I: Interner> Unifier<'t, I>$" fn=unify_var_const contract=unify_var_const path=Unifier::unify_var_const
 }
+//@CONTRACT relate_var_ty
+    requires
+        // the unknown is still unbound (call sites in relate_ty_ty, after shallow normalization)
+        old(self).tview().value[old(self).tview().root[ena_of::<I>(var)]] is Unbound,
+    ensures
+        ({
+            let v = ena_of::<I>(var);
+            let ui = old(self).tview().value[old(self).tview().root[v]]->Unbound_0;
+            let kinds_fit = var_kind is General || (var_kind is Integer && ty.spec_is_integer()) || (var_kind is Float && ty.spec_is_float());
+            // THE occurs check, for this unknown and its universe, on the state at entry
+            let checked = spec_check_ty(*ty, v, ui, old(self).tview(), old(self).goal_seq(), old(self).env());
+            // an integer / float unknown only takes an integer / float type
+            &&& !kinds_fit ==> r is Err && final(self).tview() == old(self).tview() && final(self).goal_seq() == old(self).goal_seq()
+            // a failed check binds nothing
+            &&& kinds_fit && checked.0 is Err ==> r is Err && final(self).tview() == checked.1 && final(self).goal_seq() == checked.2
+            // on success the unknown's class is bound to the generalization of the CHECKED type, which is then related to
+            // the checked type at the same variance
+            &&& kinds_fit && checked.0 is Ok ==> {
+                let t1 = checked.0->Ok_0;
+                let gen = spec_generalize_ty(t1, ui, variance, checked.1);
+                let bound = TableView { root: gen.1.root, value: gen.1.value.insert(gen.1.root[v], InferenceValue::<I>::Bound(arg_of_ty(gen.0))) };
+                (r is Ok, final(self).goal_seq(), final(self).tview())
+                    == spec_relate_ty_ty(checked.2, bound, old(self).env(), variance, gen.0, t1)
+            }
+        }),
+//@END
 //@CONTRACT unify_var_var
     requires
         // "unification of two unbound variables cannot fail" (the code's `expect`)
